@@ -8,7 +8,7 @@ open TlxVerif TlxVerif.C11
 inductive Scen
   | none
   | sem (init : Nat) (threads : List (List Sem.Op))
-  | barrier (kind : String) (n gens : Nat)
+  | barrier (kind : String) (n gens : Nat) (act : Nat)
 
 structure St where
   sc : Scen := .none
@@ -45,13 +45,13 @@ def doRun (s : St) (ts : List String) : St × String :=
     | .sem v threads =>
       let r := Sched.run Sem.lts p (Sem.init v threads)
       finish s r s!"value={r.st.value} acq={r.st.acquired} sig={r.st.signalled}"
-    | .barrier kind n gens =>
+    | .barrier kind n gens act =>
       if kind = "mutex" then
-        let r := Sched.run BarM.lts p (BarM.init n gens)
-        finish s r s!"step={r.st.step} acts={r.st.actions}"
+        let r := Sched.run BarM.lts p (BarM.init n gens act)
+        finish s r s!"step={r.st.step} acts={r.st.begun}"
       else
-        let r := Sched.run BarS.lts p (BarS.init n gens (kind = "spiny"))
-        finish s r s!"step={r.st.step} acts={r.st.actions}"
+        let r := Sched.run BarS.lts p (BarS.init n gens (kind = "spiny") act)
+        finish s r s!"step={r.st.step} acts={r.st.begun}"
 
 def showExplore (r : Nat × Bool) : String :=
   s!"explored={r.1} complete={if r.2 then 1 else 0} violated=0"
@@ -64,9 +64,9 @@ def doExplore (s : St) (ts : List String) : St × String :=
     match s.sc with
     | .none => (s, "bad-op")
     | .sem v threads => (s, showExplore (Sched.explore Sem.lts p (Sem.init v threads)))
-    | .barrier kind n gens =>
-      if kind = "mutex" then (s, showExplore (Sched.explore BarM.lts p (BarM.init n gens)))
-      else (s, showExplore (Sched.explore BarS.lts p (BarS.init n gens (kind = "spiny"))))
+    | .barrier kind n gens act =>
+      if kind = "mutex" then (s, showExplore (Sched.explore BarM.lts p (BarM.init n gens act)))
+      else (s, showExplore (Sched.explore BarS.lts p (BarS.init n gens (kind = "spiny") act)))
 
 def step (s : St) (ts : List String) : St × String :=
   match ts with
@@ -82,8 +82,14 @@ def step (s : St) (ts : List String) : St × String :=
   | ["barrier", kind, n, g] =>
     if kind = "mutex" ∨ kind = "spin" ∨ kind = "spiny" then
       match smallNum n 6, smallNum g 8 with
-      | some n, some g => if n ≥ 1 then ({ s with sc := .barrier kind n g }, "ok") else (s, "bad-op")
+      | some n, some g => if n ≥ 1 then ({ s with sc := .barrier kind n g 0 }, "ok") else (s, "bad-op")
       | _, _ => (s, "bad-op")
+    else (s, "bad-op")
+  | ["barrier", kind, n, g, a] =>
+    if kind = "mutex" ∨ kind = "spin" ∨ kind = "spiny" then
+      match smallNum n 6, smallNum g 8, Sched.keyNat "act" a with
+      | some n, some g, some a => if n ≥ 1 ∧ a ≤ 4 then ({ s with sc := .barrier kind n g a }, "ok") else (s, "bad-op")
+      | _, _, _ => (s, "bad-op")
     else (s, "bad-op")
   | "run" :: rest => doRun s rest
   | "explore" :: rest => doExplore s rest
